@@ -335,6 +335,20 @@ def r_create_replacement(ck: Checker) -> None:
                "the telescoping sum starts at the domain's first element")
 
 
+def r_oldmax(ck: Checker) -> None:
+    """the literal that is replaced by chain atoms is a POSITIVE occurrence of the result predicate"""
+    for fname in ("_replace_results_in_minimize", "_split_element"):
+        func = ck.func(f"{CLS}.{fname}")
+        it = ck.interp(func)
+        picks = [n for n in find_nodes(func.node, lambda n: isinstance(n, ast.Assign)) if len(n.targets) == 1 and isinstance(n.targets[0], ast.Name) and n.targets[0].id in ("oldmax", "old_max") and isinstance(n.value, ast.Name)]  # type: ignore[attr-defined]
+        picks = [p for p in picks if enclosing_loop(func, p) is not None]
+        ck.need(len(picks) == 1, f"{fname} picks the result literal in a loop over the body / condition")
+        pick = picks[0]
+        cond = pick.value.id  # type: ignore[attr-defined]
+        ck.guard(f"{fname}: the picked literal is a positive atom of the result predicate", func, pick, f"list(map(lambda x: x.pred, predicates({cond}, {{Sign.NoSign}}))) == [minmaxpred[1].oldpred]",
+                 "`not not mx(P,X)` is a test, not a binder: replacing it by chain atoms makes the statement pay the maximum unconditionally")
+
+
 def r_store_head(ck: Checker) -> None:
     """the head predicate of a translated min/max rule is remembered as 'the result predicate' only if nothing else defines it"""
     func = ck.func(f"{CLS}._store_aggregate_head")
@@ -344,6 +358,17 @@ def r_store_head(ck: Checker) -> None:
     site = apps[0]
     sym = f"{head}.atom.symbol"
     ck.guard("the head is a plain predicate", func, site, f"is_predicate({head})", "")
+    loops = [lp for lp in find_nodes(func.node, lambda n: isinstance(n, ast.For)) if re.fullmatch(rf"({re.escape(sym)}|symbol)\.arguments", unparse(lp.iter)) and isinstance(lp.target, ast.Name) and lp.lineno < site.lineno]
+    plain = False
+    for lp in loops:
+        bad_kinds = ("Function", "BinaryOperation", "UnaryOperation", "Interval", "Pool")
+        plain = plain or all(not ck.interp(func, Pins.of(vals={f"{lp.target.id}.ast_type": f"ASTType.{k}"})).reachable(site) for k in bad_kinds)  # type: ignore[union-attr]
+    ck.add("every head argument is a variable or a constant", plain, func, site, f"registration unreachable when a head argument is a function term / arithmetic term / interval / pool: {plain}",
+           "the translation map has no slot for such an argument: a later use of the predicate in an objective hits `assert isinstance(arg, AST)` and optimize aborts (C03)")
+    rv = func.params()[3]
+    mv = func.params()[4]
+    ck.guard("every argument of the new result predicate occurs in the head", func, site, f"not any(var not in {sym}.arguments for var in {rv} + [{mv}])",
+             "`mx(X) :- X = #max{V : skill(P,V)}, person(P).` drops the group P: an atom mx(X) cannot be translated to __max(P,X), and a later use in an objective or a sum fails an assertion (C03)")
     ck.guard("the head predicate is derived by this rule only", func, site, f"len(self.rule_dependency.get_bodies(Predicate({sym}.name, len({sym}.arguments)))) == 1",
              "uses of the predicate in sums and objectives are replaced by the chain encoding of THIS aggregate: a fact or a second rule for the predicate contributes values the chain does not contain")
 
@@ -358,5 +383,6 @@ RULES = [
     Rule("C12.G.minimize", PG, r_g_minimize),
     Rule("C12.G.sum-element", PG, r_g_sum),
     Rule("C12.create-replacement", PG, r_create_replacement),
-    Rule("C12.store-head", PG + ("C06",), r_store_head),
+    Rule("C12.store-head", PG + ("C06", "C03"), r_store_head),
+    Rule("C12.oldmax", PG, r_oldmax),
 ]
